@@ -302,7 +302,8 @@ def _progress(ctx: Ctx, c: Collector) -> None:
         # (early return, or the future is resolved on the spot)
         resolved = [e for e in s.of_kind("call") if e.term[1][0] == "attr" and e.term[1][2] == "set_result"
                     and any(_is_trig(x) for x in guard_terms(e.guards))]
-        if not [r for r in early if any(_is_trig(x) for x in guard_terms(r.guards))] and not resolved:
+        skipped = any(_is_not_trig(x) for x in guard_terms(app.guards))        # registered only when it has not fired yet
+        if not [r for r in early if any(_is_trig(x) for x in guard_terms(r.guards))] and not resolved and not skipped:
             problems.append("the immediate check has no consequence: a trigger that has fired already is registered and only resolved by the next "
                             "set(), which need not come (the last waiter of a run waits forever)")
         if problems:
